@@ -11,7 +11,7 @@ import gc
 from sim import devices
 from sim.canon import Log, dec_table, canon_rows, canon_row, canon_cell
 from sim.core import outcome, ddmin_lists
-from sim.devices import SimTable, SimSourceError
+from sim.devices import SimTable, SimSourceError, SOURCE_ERROR_KINDS
 from sim.gen import gen_table, FIELDS
 from sim.loader import load_petl
 from sim.sched import Sched, Violation, gen_schedule
@@ -102,10 +102,22 @@ def gen_case(rng, tier, g):
             n = len(left if side == 'left' else right) - 1
             steps.insert(rng.randint(0, max(0, len(steps) // 2)),
                          ['ARM', side, rng.choice([1, 2, max(1, n // 2), n,
-                                                   n + 1]), 1])
+                                                   n + 1]), 1,
+                          rng.choice(SOURCE_ERROR_KINDS)])
+        edit = None
+        if rng.random() < 0.35:
+            # the build side changes between two passes: cache=False (and
+            # the joins without a cache argument) must reflect it, cache=True
+            # must keep serving the lookup it has
+            row = gen_table(rng, 1, minrows=1, nfields=nfr if kind !=
+                            'hashrightjoin' else nfl, ragged=False,
+                            profile='nonone')[1]
+            edit = [rng.choice(['append', 'delete', 'replace']),
+                    rng.randrange(8), row]
         return {'prop': PROP, 'machine': 'join', 'kind': kind, 'left': left,
                 'right': right, 'keyspec': keyspec, 'args': args,
-                'cache': cache, 'steps': steps, 'shape': shape}
+                'cache': cache, 'steps': steps, 'shape': shape,
+                'edit': edit}
     fn = LOOKUPS[g % len(LOOKUPS)]
     nf = 4
     table = gen_table(rng, maxrows, nfields=nf, ragged=False,
@@ -252,7 +264,9 @@ def _run_join(e, case, log, probes):
     try:
         for op in case['steps']:
             if op[0] == 'ARM':
-                (ls if op[1] == 'left' else rs).arm(op[2], passes=op[3])
+                (ls if op[1] == 'left' else rs).arm(
+                    op[2], passes=op[3],
+                    kind=op[4] if len(op) > 4 else 'plain')
                 log.add('step', op)
                 probes['source-failure-armed'] = 1
                 continue
@@ -273,6 +287,41 @@ def _run_join(e, case, log, probes):
             probes['build-side-reread-despite-cache'] = 1
         if case['cache']:
             probes['second-pass-from-cached-lookup'] = 1
+        if case.get('edit'):
+            kind_, idx, row = case['edit']
+            row = dec_table([row])[0]
+            data = build.rows
+            if kind_ == 'append' or len(data) <= 1:
+                data.append(list(row))
+            elif kind_ == 'delete':
+                del data[1 + idx % (len(data) - 1)]
+            else:
+                data[1 + idx % (len(data) - 1)] = list(row)
+            cached = case['cache'] and kind in ('hashjoin', 'hashleftjoin',
+                                                'hashrightjoin')
+            l2 = [list(r) for r in ls.rows]
+            r2 = [list(r) for r in rs.rows]
+            if cached:
+                # streamed side current, build side as it was when loaded
+                if kind == 'hashrightjoin':
+                    l2 = [list(r) for r in left]
+                else:
+                    r2 = [list(r) for r in right]
+            try:
+                want2 = canon_rows(join_model(kind, l2, r2, case['keyspec'],
+                                              case['args']))
+            except (ValueError, IndexError):
+                want2 = None
+            if want2 is not None:
+                sch.expected[0] = want2
+                before = build.pulls('data')
+                sch.fresh(0, label='pass-after-edit')
+                if cached and build.pulls('data') != before:
+                    raise _Bad('cached-lookup-reloaded',
+                               '%s: with cache=True a later pass pulled %d '
+                               'data rows from the build side again'
+                               % (what, build.pulls('data') - before))
+                probes['pass-after-build-side-edit:cache=%s' % cached] = 1
     except Violation as v:
         raise _Bad('hash-vs-model-' + v.vclass.replace('fresh-pass-', ''),
                    what + ': ' + v.msg)
@@ -498,6 +547,10 @@ def shrink_candidates(case):
             c = copy.deepcopy(case)
             del c['args'][k]
             yield c
+        if case.get('edit'):
+            c = copy.deepcopy(case)
+            c['edit'] = None
+            yield c
         for side in ('left', 'right'):
             t = case[side]
             for ri in range(1, len(t)):
@@ -524,7 +577,10 @@ def selfcheck(agg):
     errs = []
     for p in ['join:' + k for k in JOINS] + ['lookup:' + f for f in LOOKUPS] \
             + ['strict-duplicate', 'dictionary-reused', 'empty-build-side',
-               'none-key-on-left', 'second-pass-from-cached-lookup']:
+               'none-key-on-left', 'second-pass-from-cached-lookup',
+               'pass-after-build-side-edit:cache=True',
+               'pass-after-build-side-edit:cache=False',
+               'failure-during-build']:
         if not agg['probes'].get(p):
             errs.append('probe never hit: ' + p)
     return errs
